@@ -25,7 +25,8 @@ EXTENDS Integers, Sequences, FiniteSets, TLC, Json
 
 CONSTANTS Mech,      \* "selfpipe" | "signalfd"
           PriorA, PriorB,   \* "dfl" | "ign" | "custom"
-          Acts, ScriptOps, D
+          Acts, ScriptOps, D,
+          Evs        \* subset of 1..4: the events the generator uses (small sets allow exhaustive script families)
 
 VARIABLES st, hist
 vars == <<st, hist>>
@@ -113,12 +114,12 @@ LoopRec(S, it, log) ==
 
 ----------------------------------------------------------------------------
 UserOps ==
-  (IF "add" \in Acts THEN {[a |-> "add", e |-> e] : e \in Ev} ELSE {})
-  \cup (IF "del" \in Acts THEN {[a |-> "del", e |-> e] : e \in Ev} ELSE {})
+  (IF "add" \in Acts THEN {[a |-> "add", e |-> e] : e \in Evs} ELSE {})
+  \cup (IF "del" \in Acts THEN {[a |-> "del", e |-> e] : e \in Evs} ELSE {})
   \cup (IF "raise" \in Acts THEN {[a |-> "raise", s |-> s] : s \in Sigs} ELSE {})
 ScriptSet ==
-  (IF "del" \in ScriptOps THEN {[a |-> "del", e |-> e] : e \in Ev} ELSE {})
-  \cup (IF "add" \in ScriptOps THEN {[a |-> "add", e |-> e] : e \in Ev} ELSE {})
+  (IF "del" \in ScriptOps THEN {[a |-> "del", e |-> e] : e \in Evs} ELSE {})
+  \cup (IF "add" \in ScriptOps THEN {[a |-> "add", e |-> e] : e \in Evs} ELSE {})
   \cup (IF "raise" \in ScriptOps THEN {[a |-> "raise", s |-> s] : s \in Sigs} ELSE {})
 
 Api ==
@@ -130,7 +131,7 @@ Api ==
        /\ hist' = Append(hist, op @@ [o |-> Obs(st', 0)])
 SetScript ==
   /\ ~st.freed /\ "script" \in Acts
-  /\ \E e \in Ev, sc \in ScriptSet :
+  /\ \E e \in Evs, sc \in ScriptSet :
        /\ st.script[e] = NoOp
        /\ st' = [st EXCEPT !.script[e] = sc]
        /\ hist' = Append(hist, [a |-> "script", e |-> e, s |-> sc, o |-> Obs(st', 0)])
